@@ -6,6 +6,10 @@ ALL = ['C%02d' % i for i in range(1, 21)]
 
 # id -> (engine, technique, level text, level note, design ref)
 CLAIMED = {
+ 'C10': ('E3-hypothesis', 'property-based testing with a validity oracle over the parsed HTML (XML parser): href/id resolution, list membership, numbering by first use, back-links, TOC and cross-reference targets',
+         'Generated documents with notes, citations, glossary terms (defined, inline, re-used, unused, not cited), headings of every style, manual labels, duplicate and punctuated titles, captioned tables, TOC and title/label cross-references are rendered under default / --random / --unique / --nolabels / base-header-level and the anchor graph of the output is checked for resolution, right targets, numbering and order. Held on everything generated; one known finding is reported as such.',
+         'Trusted: Hypothesis, Python ElementTree. Cross-references only to uniquely titled headings; rand() state is pinned for the random-anchor modes.',
+         'DESIGN.md section 5, C10'),
  'C07': ('E4-enumerators', 'geometric ladders: nesting depth ladders through the uninstrumented CLI (crash = violation) and k-fold repetition / pattern-length doubling ladders with cost measured in executed SanitizerCoverage edges',
          'About 30 nesting constructs in closed/unclosed/unopened form are driven up a ladder to 10^5 (quick) or 10^6 (thorough) openers through the writers in both modes with the default 8 MiB stack; repetition ladders d^k over corpus files and line-kind representatives and the published pathological patterns inside one paragraph are measured in executed edges and must at most double per doubling (2.15 threshold) with peak stack below 6 MiB. Rungs cut by the time budget are reported as inconclusive.',
          'Trusted: SanitizerCoverage edge counts as cost measure; deep balanced nesting is only required not to crash (it is quadratic in time on the unchanged tree).',
